@@ -11,6 +11,11 @@ package sniff
 //       generator put into the bytes and that ends inside the putback bytes
 //   T4  inputs built as truncated (header block or TLS record not complete
 //       before the first stall / the end) leave *reqAddr untouched
+// Each case hooks 2–4 streams (mixed protocols) with ONE Sniffer, sequentially
+// or from concurrent goroutines, keeps every returned putback slice uncopied
+// and evaluates T1–T4 for all of them only after the last Sniffer.TCP call
+// returned: the server holds the putback while it dials the target, so it
+// must not alias memory the sniffer reuses for other streams.
 // When Sniffer.TCP returns a non-nil error the server closes the stream and
 // forwards nothing: no transparency claim is made (counted, reported).
 
@@ -19,6 +24,7 @@ import (
 	"fmt"
 	"sort"
 	"strings"
+	"sync"
 	"testing"
 
 	"pgregory.net/rapid"
@@ -334,8 +340,31 @@ type v17TCPResult struct {
 	render    string
 }
 
-// v17RunTCP executes one scripted case against Sniffer.TCP and applies T1–T4.
-func v17RunTCP(sn *Sniffer, c v17TCPCase, addr v17Addr, st *v17Stream, drainBuf int) (res v17TCPResult) {
+// v17TCPRun is one hooked stream of a case. sniff() is the only place the
+// code under test runs; the putback slice it returns is kept as returned (no
+// copy): from that moment it belongs to the caller (the server holds it while
+// it dials the target), so eval() — T1–T4 — is called only after every stream
+// of the case has been sniffed with the same Sniffer.
+type v17TCPRun struct {
+	c        v17TCPCase
+	addr     v17Addr
+	st       *v17Stream
+	drainBuf int
+	reqAddr  string
+	putback  []byte
+	err      error
+	lenAtRet int // len(putback) when TCP returned
+}
+
+func (r *v17TCPRun) sniff(sn *Sniffer) {
+	r.reqAddr = r.addr.render
+	r.putback, r.err = sn.TCP(r.st, &r.reqAddr)
+	r.lenAtRet = len(r.putback)
+}
+
+func (r *v17TCPRun) eval() (res v17TCPResult) {
+	c, addr, st, drainBuf := r.c, r.addr, r.st, r.drainBuf
+	putback, err, reqAddr := r.putback, r.err, r.reqAddr
 	sent := c.sent
 	avail := v17FirstStall(st.stalls, len(sent))
 	if avail > len(sent) {
@@ -347,8 +376,6 @@ func v17RunTCP(sn *Sniffer, c v17TCPCase, addr v17Addr, st *v17Stream, drainBuf 
 	}
 	sort.Ints(stallList)
 	script := fmt.Sprintf("bounds=%v stalls=%v fin=%v finWithData=%v", st.bounds, stallList, st.fin, st.finWithData)
-	reqAddr := addr.render
-	putback, err := sn.TCP(st, &reqAddr)
 	render := func() string {
 		return fmt.Sprintf("case{%s} addr=%s script{%s} -> putback=%d bytes err=%v reqAddr=%s log=%v sent=%s",
 			c.desc, addr.render, script, len(putback), err, reqAddr, st.log, v17Quote(sent))
@@ -471,42 +498,86 @@ func v17CheckCheck(rt *rapid.T, sn *Sniffer, udp bool, a v17Addr, ports []v17PR,
 func TestVerifC17_TCP(t *testing.T) {
 	st := newVStats("TestVerifC17_TCP")
 	defer st.Flush()
-	var errReturns, unexpectedErr int64
+	var errReturns, unexpectedErr, streams int64
 	rapid.Check(t, func(rt *rapid.T) {
-		var c v17TCPCase
-		switch rapid.IntRange(0, 9).Draw(rt, "family") {
-		case 0, 1, 2, 3:
-			c = v17GenHTTP(rt)
-		case 4, 5, 6, 7:
-			c = v17GenTLS(rt)
-		default:
-			c = v17GenOther(rt)
+		// 2–4 streams hooked by ONE Sniffer (mixed protocols); every putback is
+		// held, uncopied, until all of them have been sniffed.
+		nStreams := rapid.SampledFrom([]int{2, 2, 3, 3, 4}).Draw(rt, "streams")
+		concurrent := rapid.IntRange(0, 3).Draw(rt, "concurrent") == 2
+		var runs []*v17TCPRun
+		var sn *Sniffer
+		var ports []v17PR
+		var cfg string
+		for i := 0; i < nStreams; i++ {
+			var c v17TCPCase
+			switch rapid.IntRange(0, 9).Draw(rt, "family") {
+			case 0, 1, 2, 3:
+				c = v17GenHTTP(rt)
+			case 4, 5, 6, 7:
+				c = v17GenTLS(rt)
+			default:
+				c = v17GenOther(rt)
+			}
+			addr := v17GenAddr(rt)
+			if i == 0 {
+				sn, ports, cfg = v17GenSniffer(rt, addr, false)
+			}
+			bounds, stalls := v17Script(rt, len(c.sent), c.around)
+			stream := &v17Stream{data: c.sent, bounds: bounds, stalls: stalls}
+			stream.fin = rapid.Bool().Draw(rt, "fin")
+			stream.finWithData = stream.fin && rapid.Bool().Draw(rt, "finWithData")
+			stream.failFirstDeadline = rapid.IntRange(0, 199).Draw(rt, "deadlineFails") == 137
+			drainBuf := rapid.SampledFrom([]int{1, 7, 1500, 32768}).Draw(rt, "drainBuf")
+			if !v17CheckCheck(rt, sn, false, addr, ports, cfg) {
+				// the server does not hook this request: nothing is read, nothing can be rewritten
+				st.Case(false, "", []string{"not-hooked(port filter/domain)"}, func() string { return "not hooked: " + addr.render + " " + cfg })
+				continue
+			}
+			runs = append(runs, &v17TCPRun{c: c, addr: addr, st: stream, drainBuf: drainBuf})
 		}
-		addr := v17GenAddr(rt)
-		sn, ports, cfg := v17GenSniffer(rt, addr, false)
-		bounds, stalls := v17Script(rt, len(c.sent), c.around)
-		stream := &v17Stream{data: c.sent, bounds: bounds, stalls: stalls}
-		stream.fin = rapid.Bool().Draw(rt, "fin")
-		stream.finWithData = stream.fin && rapid.Bool().Draw(rt, "finWithData")
-		stream.failFirstDeadline = rapid.IntRange(0, 199).Draw(rt, "deadlineFails") == 137
-		drainBuf := rapid.SampledFrom([]int{1, 7, 1500, 32768}).Draw(rt, "drainBuf")
-
-		if !v17CheckCheck(rt, sn, false, addr, ports, cfg) {
-			// the server does not hook this request: nothing is read, nothing can be rewritten
-			st.Case(false, "", []string{"not-hooked(port filter/domain)"}, func() string { return "not hooked: " + addr.render + " " + cfg })
-			return
+		if concurrent && len(runs) > 1 {
+			var wg sync.WaitGroup
+			for _, r := range runs {
+				wg.Add(1)
+				go func(r *v17TCPRun) {
+					defer wg.Done()
+					r.sniff(sn)
+				}(r)
+			}
+			wg.Wait()
+		} else {
+			for _, r := range runs {
+				r.sniff(sn)
+			}
 		}
-		res := v17RunTCP(sn, c, addr, stream, drainBuf)
-		if stream.failFirstDeadline {
-			errReturns++
-		} else if len(res.classes) > 1 && res.classes[1] == "error-return(no claim)" {
-			unexpectedErr++
+		mode := "sequential"
+		if concurrent {
+			mode = "concurrent"
 		}
-		st.Case(res.nt, res.fp, res.classes, func() string { return res.render })
-		if res.violation != "" {
-			rt.Fatalf("C17: %s\n  %s\n  sniffer{%s}", res.violation, res.render, cfg)
+		var firstViolation string
+		for i, r := range runs {
+			res := r.eval()
+			streams++
+			if r.st.failFirstDeadline {
+				errReturns++
+			} else if r.err != nil {
+				unexpectedErr++
+			}
+			res.classes = append(res.classes, fmt.Sprintf("streams-in-case:%d", len(runs)), "sniffed:"+mode)
+			if i < len(runs)-1 && len(r.putback) > 0 {
+				res.classes = append(res.classes, "putback-held-across-later-sniff")
+			}
+			st.Case(res.nt, res.fp, res.classes, func() string { return res.render })
+			if res.violation != "" && firstViolation == "" {
+				firstViolation = fmt.Sprintf("C17: stream %d of %d (%s, one Sniffer; putbacks evaluated after all Sniffer.TCP calls returned): %s\n  %s\n  sniffer{%s}",
+					i+1, len(runs), mode, res.violation, res.render, cfg)
+			}
+		}
+		if firstViolation != "" {
+			rt.Fatalf("%s", firstViolation)
 		}
 	})
+	st.Extra("streams_sniffed", streams)
 	st.Extra("error_returns_with_injected_deadline_failure", errReturns)
 	st.Extra("error_returns_without_injected_failure", unexpectedErr)
 }
@@ -561,6 +632,12 @@ func FuzzVerifC17_TCP(f *testing.F) {
 		if err != nil {
 			return // the server aborts the stream; nothing is forwarded
 		}
+		// the server holds the putback while it dials; another hooked stream is sniffed meanwhile
+		other := &v17Stream{data: v17FuzzOtherRequest, stalls: map[int]bool{}, fin: true}
+		otherAddr := "203.0.113.77:80"
+		if _, err := sn.TCP(other, &otherAddr); err != nil {
+			t.Fatalf("C17 fuzz: second stream: %v", err)
+		}
 		if st.wouldHang || st.armed {
 			t.Fatalf("C17 fuzz: stream left unusable (armed=%v wouldHang=%v) data=%q script=%x mode=%d", st.armed, st.wouldHang, sent, script, mode)
 		}
@@ -593,6 +670,8 @@ func FuzzVerifC17_TCP(f *testing.F) {
 		}
 	})
 }
+
+var v17FuzzOtherRequest = []byte("PUT /other-stream HTTP/1.1\r\nHost: other-stream.example\r\nX-Fill: " + strings.Repeat("#", 6000) + "\r\n\r\n" + strings.Repeat("#", 3000))
 
 // v17FixedTLSRecord: deterministic ClientHello record with the given SNI.
 func v17FixedTLSRecord(sni string) []byte {
